@@ -101,6 +101,10 @@ MUTANTS = [
     M("n5-path-from-safe-name", ["C06"], ["N5"], ("smpl_extract/base.py", "new_path = [current_node.export_name] + new_path", "new_path = [current_node.safe_name] + new_path")),
     M("n6-lookup-raw-name", ["C10"], ["N6"], (ST, "if self._sanitize_string(x.safe_name) == token_sanitized", "if self._sanitize_string(x.name) == token_sanitized")),
     M("n7-skip-first", ["C06", "C10", "C05"], ["N7"], (ST, "                else:\n                    next_name = name\n                f_set(element, next_name)", "                else:\n                    continue\n                f_set(element, next_name)")),
+    M("n7-skip-does-not-advance", ["C06"], ["N7"], (ST, "                    while (next_name in candidate_names.keys()):\n                        i += 1\n", "                    while (next_name in candidate_names.keys()):\n                        i += 0\n")),
+    M("n7-stale-candidate", ["C06", "C10"], ["N7"], (ST, "                        j += 1\n                        next_name = self._add_count_to_name(name, i)\n", "                        j += 1\n")),
+    M("n7-second-keeps-plain", ["C06", "C05"], ["N7"], (ST, "                if i > 1:\n", "                if i > 2:\n")),
+    M("n7-no-taken-check", ["C06", "C16"], ["N7"], (ST, "while (next_name in candidate_names.keys()):", "while (next_name in renamed.keys()):")),
     M("n8-stopiteration-escapes", ["C10"], ["N8"], (ST, "except (ErrorNoChildWithName, ErrorNotTraversable, StopIteration) as e:", "except (ErrorNoChildWithName, ErrorNotTraversable) as e:")),
     M("n8-keep-empty-token", ["C10"], ["N8"], (ST, "        if len(tokens) > 0 and len(tokens[-1]) < 1:\n            tokens = tokens[:-1]\n", "")),
     # ---------------------------------------------------------------- pairing / transcoder
